@@ -241,6 +241,8 @@ class Tracer:
             if ("w" in mode or "x" in mode) and not self.is_tmp(r):
                 # a permanent path was just created or emptied in place: a state a crash or a reader can see
                 self.event("copy", r)
+                # ... and a point at which another thread may run: the file is there and empty
+                self.site("truncated", r)
                 px = _Proxy(self, f, r, mode)
                 px._wrote = True          # whatever reaches the file (write(), sendfile on the descriptor) ends at close
                 return px
